@@ -7,39 +7,6 @@ namespace Yorkie.Yson
 
 /-! ### numbers -/
 
-theorem roundF64_of_lt {n : Nat} (h : n < 2 ^ 53) : roundF64 n = n := by
-  simp [roundF64, h]
-
-theorem roundF64_two_pow_53 : roundF64 (2 ^ 53) = 2 ^ 53 := by decide
-
-theorem roundF64_of_le {n : Nat} (h : n ≤ 2 ^ 53) : roundF64 n = n := by
-  rcases Nat.lt_or_eq_of_le h with h | h
-  · exact roundF64_of_lt h
-  · subst h; exact roundF64_two_pow_53
-
-theorem i32OfInt_eq {n : Int} (h : inI32 n = true) : i32OfInt n = n := by
-  simp only [inI32, Bool.and_eq_true, decide_eq_true_eq] at h
-  have hlt : n.natAbs < 2 ^ 53 := by omega
-  simp only [i32OfInt, roundF64_of_lt hlt, toI32]
-  by_cases hn : n < 0
-  · simp only [hn, decide_true, if_true]
-    have : n.natAbs ≤ 2 ^ 31 := by omega
-    simp only [this, if_true]; omega
-  · simp only [hn, decide_false, Bool.false_eq_true, if_false]
-    have : n.natAbs < 2 ^ 31 := by omega
-    simp only [this, if_true]; omega
-
-/-- the familiar sufficient condition: integers of magnitude ≤ 2^53 survive `float64` -/
-theorem i64OfInt_eq_of_small {n : Int} (h : n.natAbs ≤ 2 ^ 53) : i64OfInt n = n := by
-  simp only [i64OfInt, roundF64_of_le h, toI64]
-  by_cases hn : n < 0
-  · simp only [hn, decide_true, if_true]
-    have : n.natAbs ≤ 2 ^ 63 := by omega
-    simp only [this, if_true]; omega
-  · simp only [hn, decide_false, Bool.false_eq_true, if_false]
-    have : n.natAbs < 2 ^ 63 := by omega
-    simp only [this, if_true]; omega
-
 theorem numTokOfText_text (t : Str) : (numTokOfText t).text = t := by
   simp only [numTokOfText]
   split
@@ -143,12 +110,18 @@ theorem b64Decode_encode (bs : List Nat) (h : wfBytes bs = true) : b64Decode (b6
 @[simp] theorem Res.bind_ok {α β} (a : α) (f : α → Res β) : (Res.ok a).bind f = f a := rfl
 @[simp] theorem Res.map_ok {α β} (a : α) (f : α → β) : (Res.ok a).map f = .ok (f a) := rfl
 
-theorem parseAttrs_attrsJ (a : Attrs) : parseAttrs (attrsJ a) = .ok a := by
+theorem parseAttrs_attrsJ (e : Err) (a : Attrs) : parseAttrs e (attrsJ a) = .ok a := by
   induction a with
   | nil => rfl
   | cons p r ih =>
     obtain ⟨k, v⟩ := p
-    simp [attrsJ, parseAttrs, J.asStr, ih]
+    simp [attrsJ, parseAttrs, ih]
+
+theorem asInt32_int {n : Int} (h : inI32 n = true) : J.asInt32 (.num (.int n)) = .ok n := by
+  simp [J.asInt32, NumTok.toI32?, NumTok.toInt?, h]
+
+theorem asInt64_int {n : Int} (h : inI64 n = true) : J.asInt64 (.num (.int n)) = .ok n := by
+  simp [J.asInt64, NumTok.toI64?, NumTok.toInt?, h]
 
 theorem parseTextNode_textNodeJ (n : TextNode) : parseTextNode (textNodeJ n) = .ok n := by
   obtain ⟨val, attrs⟩ := n
@@ -192,9 +165,6 @@ theorem parseTreeList_treeJList : ∀ (c : List TreeNode), TreeNode.wfList c = t
 end
 
 /-! ### what `Atom.safe` says about each atom -/
-
-theorem safe_long {n : Int} (h : Atom.safe (.long n) = true) : i64OfInt n = n := by
-  simpa [Atom.safe, Tag.all, Atom.hits] using h
 
 theorem safe_date {t : Str} (h : Atom.safe (.date t) = true) : dateValid t = true := by
   simpa [Atom.safe, Tag.all, Atom.hits] using h
@@ -269,28 +239,26 @@ theorem parseMember_toJ : ∀ (v : Yson), v.wf = true → (atoms v).all Atom.saf
   | .str _, _, _ => rfl
   | .int n, hw, _ => by
     simp only [Yson.wf] at hw
-    simp [toJ, wrapJ, parseMember, J.getStr?, J.get, parseTypedValue, J.asNum, NumTok.toI32, i32OfInt_eq hw]
-  | .long n, _, hs => by
-    simp only [atoms, List.all_cons, List.all_nil, Bool.and_true] at hs
-    simp [toJ, wrapJ, parseMember, J.getStr?, J.get, parseTypedValue, J.asNum, NumTok.toI64, safe_long hs]
+    simp [toJ, wrapJ, parseMember, J.getStr?, J.get, parseTypedValue, asInt32_int hw]
+  | .long n, hw, _ => by
+    simp only [Yson.wf] at hw
+    simp [toJ, wrapJ, parseMember, J.getStr?, J.get, parseTypedValue, asInt64_int hw]
   | .bytes b, hw, _ => by
     simp only [Yson.wf] at hw
-    simp [toJ, wrapJ, parseMember, J.getStr?, J.get, parseTypedValue, J.asStr, b64Decode_encode b hw]
+    simp [toJ, wrapJ, parseMember, J.getStr?, J.get, parseTypedValue, b64Decode_encode b hw]
   | .date t, _, hs => by
     simp only [atoms, List.all_cons, List.all_nil, Bool.and_true] at hs
-    simp [toJ, wrapJ, parseMember, J.getStr?, J.get, parseTypedValue, J.asStr, safe_date hs]
+    simp [toJ, wrapJ, parseMember, J.getStr?, J.get, parseTypedValue, safe_date hs]
   | .counter (.int n), hw, _ => by
     simp only [Yson.wf, Counter.wf] at hw
-    simp [toJ, counterJ, wrapJ, parseMember, J.getStr?, J.get, parseTypedValue, parseCounter, J.asNum,
-      NumTok.toI32, i32OfInt_eq hw]
-  | .counter (.long n), _, hs => by
-    simp only [atoms, List.all_cons, List.all_nil, Bool.and_true] at hs
-    simp [toJ, counterJ, wrapJ, parseMember, J.getStr?, J.get, parseTypedValue, parseCounter, J.asNum,
-      NumTok.toI64, safe_long hs]
+    simp [toJ, counterJ, wrapJ, parseMember, J.getStr?, J.get, parseTypedValue, parseCounter, asInt32_int hw]
+  | .counter (.long n), hw, _ => by
+    simp only [Yson.wf, Counter.wf] at hw
+    simp [toJ, counterJ, wrapJ, parseMember, J.getStr?, J.get, parseTypedValue, parseCounter, asInt64_int hw]
   | .counter (.dedup n regs), hw, _ => by
     simp only [Yson.wf, Counter.wf, Bool.and_eq_true] at hw
     simp [toJ, counterJ, parseMember, J.getStr?, J.get, parseTypedValue, parseDedupCounter,
-      NumTok.toI32, i32OfInt_eq hw.1, b64Decode_encode regs hw.2]
+      asInt32_int hw.1, b64Decode_encode regs hw.2]
   | .text ns, _, _ => by
     simp [toJ, wrapJ, parseMember, J.getStr?, J.get, parseTypedValue, parseText_map]
   | .tree r, hw, _ => by
